@@ -71,7 +71,8 @@ pub fn oti_tokens(o: &OtiSpec) -> Vec<String> {
     vec![o.enc.to_string(), o.inst.to_string(), o.b.to_string(), o.e.to_string(), (o.b as u64 + o.p as u64).to_string(), ssi]
 }
 
-/// per-attribute resolution: the File attribute when present, else the FDT-Instance attribute
+/// resolution as RFC 6726 readers do it: the File element's FEC-OTI attributes when it carries an encoding id,
+/// else the FDT-Instance's; the scheme-specific info only counts for schemes that define one
 pub fn resolve(file: &str, fdt: &str) -> Vec<String> {
     let split = |s: &str| -> Vec<String> {
         if s == "~" {
@@ -84,7 +85,11 @@ pub fn resolve(file: &str, fdt: &str) -> Vec<String> {
     if f.len() != 6 || d.len() != 6 {
         return vec!["?".into()];
     }
-    (0..6).map(|i| if f[i] != "~" { f[i].clone() } else { d[i].clone() }).collect()
+    let mut r = if f[0] != "~" { f } else { d };
+    if !["1", "2", "6"].contains(&r[0].as_str()) {
+        r[5] = "~".into();
+    }
+    r
 }
 
 fn has_ws(s: &str) -> bool {
